@@ -85,6 +85,34 @@ func genRFC6902Full(r *core.RNG, doc map[string]any) []any {
 		case 4:
 			ops = append(ops, map[string]any{"op": "replace", "path": existing(), "value": genValue(r)})
 		case 5:
+			if r.Chance(1, 2) {
+				// a test that holds: the value the reference finds at a pointer of the document as the operations so far leave it
+				// (scalars preferred: strings with characters on which encoders disagree are compared as they were written)
+				cur := any(doc)
+				if next, err := ref.ApplyRFC6902(doc, ops); err == nil {
+					cur = next
+				}
+				if cm, ok := cur.(map[string]any); ok {
+					_, oth := sortedMembers(cm)
+					cand := pointersOf(cm, append(oth, ref.MAlsoKnownAs))
+					var scalars []string
+					for _, c := range cand {
+						if v, err := ref.Lookup(cm, c); err == nil && v != nil && !isContainerValue(v) {
+							scalars = append(scalars, c)
+						}
+					}
+					if len(scalars) > 0 && !r.Chance(1, 5) {
+						cand = scalars
+					}
+					if len(cand) > 0 {
+						p := core.Pick(r, cand)
+						if v, err := ref.Lookup(cm, p); err == nil {
+							ops = append(ops, map[string]any{"op": "test", "path": p, "value": ref.Clone(v)})
+							continue
+						}
+					}
+				}
+			}
 			ops = append(ops, map[string]any{"op": "test", "path": existing(), "value": genValue(r)})
 		case 6:
 			ops = append(ops, map[string]any{"op": "copy", "from": existing(), "path": fresh()})
@@ -334,4 +362,12 @@ func init() {
 		Assumptions: worldAssumptions,
 	})
 	_ = fmt.Sprint
+}
+
+func isContainerValue(v any) bool {
+	switch v.(type) {
+	case map[string]any, []any:
+		return true
+	}
+	return false
 }
